@@ -252,6 +252,7 @@ class Poison:
 # path context
 
 _QUERY_TIMEOUT_MS = 20000
+MAX_DECISIONS = 160
 
 
 class Stats:
@@ -336,6 +337,8 @@ class Ctx:
         if z3.is_false(cond):
             return False
         idx = len(self.taken)
+        if idx > MAX_DECISIONS:
+            raise Unsupported(f"more than {MAX_DECISIONS} symbolic decisions on one path (unbounded symbolic loop?)")
         if idx < len(self.decisions):
             choice = self.decisions[idx]
         else:
